@@ -21,7 +21,7 @@ pub enum Policy {
     Pct { changes: usize, horizon: u64 },
     /// Run the current actor until it blocks, except pre-empt (switch to a random other runnable
     /// actor) at the given global step numbers. Used for systematic pre-emption sweeps.
-    PreemptAt { steps: Vec<u64>, to: Vec<usize> },
+    PreemptAt { steps: Vec<u64>, to: Vec<usize>, lowest_first: bool },
 }
 
 #[derive(Clone, Copy, Debug, PartialEq, Eq)]
@@ -101,7 +101,7 @@ impl<M: Monitor + 'static> HookSink for Sched<M> {
         if self.free_running.load(Ordering::Relaxed) {
             return;
         }
-        let mut g = self.m.lock().unwrap();
+        let mut g = self.m.lock().unwrap_or_else(|e| e.into_inner());
         g.step += 1;
         let ev = Event { step: g.step, actor, site, addr, a, b };
         g.mon.on_event(&ev);
@@ -176,16 +176,16 @@ impl<M: Monitor + 'static> Sched<M> {
     }
 
     pub fn set_replay(&self, choices: Vec<u8>) {
-        self.m.lock().unwrap().replay = Some(choices);
+        self.m.lock().unwrap_or_else(|e| e.into_inner()).replay = Some(choices);
     }
 
     pub fn record_choices(&self) {
-        self.m.lock().unwrap().record_choices = true;
+        self.m.lock().unwrap_or_else(|e| e.into_inner()).record_choices = true;
     }
 
     /// Access the monitor (baton holder or after the run).
     pub fn with<R>(&self, f: impl FnOnce(&mut Inner<M>) -> R) -> R {
-        f(&mut self.m.lock().unwrap())
+        f(&mut self.m.lock().unwrap_or_else(|e| e.into_inner()))
     }
 
     fn pick(g: &mut Inner<M>, me: Option<usize>) -> Option<usize> {
@@ -220,7 +220,7 @@ impl<M: Monitor + 'static> Sched<M> {
                 }
                 *runnable.iter().max_by_key(|i| g.prio[**i]).unwrap()
             }
-            Policy::PreemptAt { steps, to } => {
+            Policy::PreemptAt { steps, to, lowest_first } => {
                 let step = g.step;
                 match (me_runnable, steps.iter().position(|s| *s == step)) {
                     (Some(m), None) => m,
@@ -229,9 +229,8 @@ impl<M: Monitor + 'static> Sched<M> {
                         if others.is_empty() { m } else { others[to[k % to.len()] % others.len()] }
                     }
                     (None, _) => {
-                        // current actor blocked/finished: lowest id first keeps it deterministic
-                        // and lets `to` steer only pre-emptions.
-                        runnable[g.rng.usize_below(runnable.len())]
+                        // current actor blocked/finished
+                        if *lowest_first { runnable[0] } else { runnable[g.rng.usize_below(runnable.len())] }
                     }
                 }
             }
@@ -283,19 +282,19 @@ impl<M: Monitor + 'static> Sched<M> {
             return;
         }
         while g.current != Some(me) {
-            g = self.cv.wait(g).unwrap();
+            g = self.cv.wait(g).unwrap_or_else(|e| e.into_inner());
         }
     }
 
     pub fn wake(&self, id: usize) {
         if self.free_running.load(Ordering::Relaxed) {
-            let mut g = self.m.lock().unwrap();
+            let mut g = self.m.lock().unwrap_or_else(|e| e.into_inner());
             g.woken[id] = true;
             self.cv.notify_all();
             return;
         }
         // Called by the baton holder (or by the main thread before start).
-        let mut g = self.m.lock().unwrap();
+        let mut g = self.m.lock().unwrap_or_else(|e| e.into_inner());
         g.woken[id] = true;
         if g.st[id] == St::Blocked {
             g.st[id] = St::Runnable;
@@ -305,7 +304,7 @@ impl<M: Monitor + 'static> Sched<M> {
     /// Start everything: actor 0.. become runnable, the first pick gets the baton. Blocks the
     /// calling (main) thread until all actors are done.
     pub fn run_to_completion(&self) {
-        let mut g = self.m.lock().unwrap();
+        let mut g = self.m.lock().unwrap_or_else(|e| e.into_inner());
         for s in g.st.iter_mut() {
             if *s == St::NotStarted {
                 *s = St::Runnable;
@@ -318,12 +317,12 @@ impl<M: Monitor + 'static> Sched<M> {
         }
         self.cv.notify_all();
         while !g.finished {
-            g = self.cv.wait(g).unwrap();
+            g = self.cv.wait(g).unwrap_or_else(|e| e.into_inner());
         }
     }
 
     pub fn actor_names(&self) -> Vec<String> {
-        self.m.lock().unwrap().names.clone()
+        self.m.lock().unwrap_or_else(|e| e.into_inner()).names.clone()
     }
 }
 
@@ -333,9 +332,9 @@ impl<M: Monitor + 'static> Ctx<M> {
         let sink: Arc<dyn HookSink> = sched.clone();
         CUR.with(|c| *c.borrow_mut() = Some((sink, id)));
         {
-            let mut g = sched.m.lock().unwrap();
+            let mut g = sched.m.lock().unwrap_or_else(|e| e.into_inner());
             while g.current != Some(id) {
-                g = sched.cv.wait(g).unwrap();
+                g = sched.cv.wait(g).unwrap_or_else(|e| e.into_inner());
             }
         }
         Ctx { sched, id }
@@ -344,14 +343,14 @@ impl<M: Monitor + 'static> Ctx<M> {
     /// Actor finished: hand the baton on for good.
     pub fn leave(self) {
         CUR.with(|c| *c.borrow_mut() = None);
-        let mut g = self.sched.m.lock().unwrap();
+        let mut g = self.sched.m.lock().unwrap_or_else(|e| e.into_inner());
         g.st[self.id] = St::Done;
         g.step += 1;
         self.sched.switch(g, self.id, true);
     }
 
     pub fn yield_now(&self) {
-        let mut g = self.sched.m.lock().unwrap();
+        let mut g = self.sched.m.lock().unwrap_or_else(|e| e.into_inner());
         if g.no_yield[self.id] > 0 {
             return;
         }
@@ -362,7 +361,7 @@ impl<M: Monitor + 'static> Ctx<M> {
     /// Block until `wake(id)` was called since the last `block` returned (wake-ups are sticky, as
     /// with a real task waker). Returns `Stuck` if nobody is left who could wake us.
     pub fn block(&self) -> Blocked {
-        let mut g = self.sched.m.lock().unwrap();
+        let mut g = self.sched.m.lock().unwrap_or_else(|e| e.into_inner());
         if g.woken[self.id] {
             g.woken[self.id] = false;
             drop(g);
@@ -372,7 +371,7 @@ impl<M: Monitor + 'static> Ctx<M> {
         g.st[self.id] = St::Blocked;
         g.step += 1;
         self.sched.switch(g, self.id, false);
-        let mut g = self.sched.m.lock().unwrap();
+        let mut g = self.sched.m.lock().unwrap_or_else(|e| e.into_inner());
         if g.woken[self.id] {
             g.woken[self.id] = false;
             Blocked::Woken
@@ -387,22 +386,22 @@ impl<M: Monitor + 'static> Ctx<M> {
 
     /// Run `f` without any scheduling point inside (events are still monitored).
     pub fn atomic<R>(&self, f: impl FnOnce() -> R) -> R {
-        self.sched.m.lock().unwrap().no_yield[self.id] += 1;
+        self.sched.m.lock().unwrap_or_else(|e| e.into_inner()).no_yield[self.id] += 1;
         let r = f();
-        self.sched.m.lock().unwrap().no_yield[self.id] -= 1;
+        self.sched.m.lock().unwrap_or_else(|e| e.into_inner()).no_yield[self.id] -= 1;
         r
     }
 
     pub fn mon<R>(&self, f: impl FnOnce(&mut M) -> R) -> R {
-        f(&mut self.sched.m.lock().unwrap().mon)
+        f(&mut self.sched.m.lock().unwrap_or_else(|e| e.into_inner()).mon)
     }
 
     pub fn over_budget(&self) -> bool {
-        self.sched.m.lock().unwrap().over_budget
+        self.sched.m.lock().unwrap_or_else(|e| e.into_inner()).over_budget
     }
 
     pub fn step(&self) -> u64 {
-        self.sched.m.lock().unwrap().step
+        self.sched.m.lock().unwrap_or_else(|e| e.into_inner()).step
     }
 
     /// Wake another actor (e.g. the wire got a frame: wake RX).
